@@ -18,7 +18,10 @@
    Err 1 = WideStr (Utf16.ERR_WIDESTR), Err 2 = CellError, Err 3 = Unrecognized (check_len, a
    shared-string index outside the table).
    The model follows /repo after the C06 hardening (commits e31f96c, a869bc8, b7399c9, acf1eed and
-   the SST / wide-string ones): every record body is checked against the fixed fields read from
+   the SST / wide-string ones) and after the fix "xlsb short cell records (BrtShortBlank ..
+   BrtShortIsst) were skipped": next_cell keeps next_col, the column right of the last cell record
+   of the row, and reads a record 0x0C..0x12 as its long twin 0x01..0x07 at that column
+   ([unshort], [cells_loop]).  Every record body is checked against the fixed fields read from
    it before they are read.  The index / slice sites themselves are still guarded steps yielding
    [Panic] here; XlsbRec_proofs.v proves that none of them is reachable any more
    (no_panic_framing, no_panic_reader, no_panic_sst). *)
@@ -235,9 +238,22 @@ Definition parse_cerr (b : N) : outcome cerr :=
 (* what one iteration of next_cell's loop does with a record *)
 Inductive cstep : Type :=
 | CCell (v : dref)          (* break value: a cell at (self.row, read_u32(buf)) *)
+| CBlank (col : N)          (* BrtCellBlank of at least 4 bytes: no value, next_col moves *)
 | CRow (r : N)              (* BrtRowHdr *)
 | CEnd                      (* BrtEndSheetData *)
 | CSkip.                    (* continue *)
+
+(* the head of next_cell's loop after the fix "xlsb short cell records were skipped": a record
+   0x0C..0x12 (BrtShortBlank .. BrtShortIsst) is rewritten into its long twin 0x01..0x07:
+     self.buf.splice(0..0, self.next_col.to_le_bytes()); self.typ -= 0x000B; len += 4
+   (the buffer was cleared before fill_buffer, so it holds exactly the record) *)
+Definition is_short (typ : N) : bool := (12 <=? typ) && (typ <=? 18).
+
+Definition unshort (typ : N) (buf : list N) (ncol : N) : N * list N :=
+  if is_short typ then (typ - 11, le_bytes 4 ncol ++ buf) else (typ, buf).
+
+(* u32::wrapping_add(1) *)
+Definition wrap_succ32 (c : N) : N := (c + 1) mod 4294967296.
 
 Section Xlsb.
 Variable fdiv100 : N -> N.
@@ -303,26 +319,33 @@ Definition record_step (typ : N) (buf : list N) : outcome cstep :=
     end
   else if typ =? 0 then                                       (* BrtRowHdr *)
     if lenN buf <? 4 then Panic else Ok (CRow (rd 4 0 buf))
+  else if typ =? 1 then                                       (* BrtCellBlank: if len >= 4 *)
+    if 4 <=? lenN buf then Ok (CBlank (rd 4 0 buf)) else Ok CSkip
   else if typ =? 146 then Ok CEnd                             (* BrtEndSheetData *)
   else Ok CSkip.
 
 (* next_cell called until it returns None (the loops of worksheet_range_ref).  No arm of
    next_cell produces DataRef::Empty, so the `val: DataRef::Empty => ()` arm of the caller is
    dead.  A row above 0x100000 ends the sheet.  An error or panic anywhere fails the call, so
-   the cells may be consed in front of the recursive result. *)
-Fixpoint cells_loop (fuel : nat) (s : list N) (row : N) : outcome (list cellr) :=
+   the cells may be consed in front of the recursive result.
+   State: self.row and self.next_col (the column right of the last cell record of the row: 0
+   after BrtRowHdr, col.wrapping_add(1) after every cell record, BrtCellBlank included). *)
+Fixpoint cells_loop (fuel : nat) (s : list N) (row ncol : N) : outcome (list cellr) :=
   match fuel with
   | O => OutOfFuel
   | S f =>
       do r <- next_record s;
-      do st <- record_step (fst (fst r)) (snd (fst r));
+      let tb := unshort (fst (fst r)) (snd (fst r)) ncol in
+      do st <- record_step (fst tb) (snd tb);
       match st with
       | CCell v =>
-          do more <- cells_loop f (snd r) row;
-          Ok (((row, rd 4 0 (snd (fst r))), v) :: more)
-      | CRow r' => if 1048576 <? r' then Ok [] else cells_loop f (snd r) r'
+          let col := rd 4 0 (snd tb) in
+          do more <- cells_loop f (snd r) row (wrap_succ32 col);
+          Ok (((row, col), v) :: more)
+      | CBlank col => cells_loop f (snd r) row (wrap_succ32 col)
+      | CRow r' => if 1048576 <? r' then Ok [] else cells_loop f (snd r) r' 0
       | CEnd => Ok []
-      | CSkip => cells_loop f (snd r) row
+      | CSkip => cells_loop f (snd r) row ncol
       end
   end.
 
@@ -332,14 +355,14 @@ Definition sheet_cells (s : list N) : outcome (list cellr) :=
   let fuel := S (length s) in
   do nr <- reader_new fuel s;
   let _ := dims_len (fst nr) in
-  cells_loop fuel (snd nr) 0.
+  cells_loop fuel (snd nr) 0 0.
 
 (* Xlsb::worksheet_cells_reader, then XlsbCellsReader::next_cell until it returns None (the
    dimensions are not looked at) *)
 Definition reader_cells (s : list N) : outcome (list cellr) :=
   let fuel := S (length s) in
   do nr <- reader_new fuel s;
-  cells_loop fuel (snd nr) 0.
+  cells_loop fuel (snd nr) 0 0.
 
 (* ReaderRef::worksheet_range_ref *)
 Definition worksheet_range_ref (h : header_row) (s : list N) : outcome (range dref) :=
@@ -467,18 +490,31 @@ Definition cval_bytes (v : cval) : list N :=
 (* Cell structure (MS-XLSB 2.5.9): column, 24-bit iStyleRef, one byte of flags *)
 Definition cell_head (col style fl : N) : list N := le_bytes 4 col ++ le_bytes 3 style ++ [fl].
 
+(* the same without the column: the head of the short cell records *)
+Definition short_head (style fl : N) : list N := le_bytes 3 style ++ [fl].
+
+(* the value kinds that have a short record: BrtShortBlank 0x0C, BrtShortRk 0x0D, BrtShortError
+   0x0E, BrtShortBool 0x0F, BrtShortReal 0x10, BrtShortSt 0x11, BrtShortIsst 0x12 — the ids of
+   BrtCellBlank .. BrtCellIsst plus 11; formula cells always carry their column *)
+Definition shortable (v : cval) : bool := cval_id v <=? 7.
+
 (* physical items of the cell table, in stream order.  [tail] is whatever follows the fields the
    value reader looks at: grbit + formula + extra for the BrtFmla* records, rich-text runs for
    BrtCellSt, the rest of the row header (ixfe, miyRw, flags, column spans) for BrtRowHdr. *)
 Inductive item : Type :=
 | IRow (row : N) (tail : list N)
 | ICell (col style fl : N) (v : cval) (tail : list N)
-| IOther (id : N) (body : list N).              (* any record the cell reader does not interpret *)
+| IShort (style fl : N) (v : cval) (tail : list N)
+                                                (* a short cell record: the cell stands in the
+                                                   column right after the previous cell of the row *)
+| IOther (id : N) (body : list N).              (* a record that is not part of the cell table
+                                                   grammar (see cell_table_id) *)
 
 Definition item_id (it : item) : N :=
   match it with
   | IRow _ _ => 0
   | ICell _ _ _ v _ => cval_id v
+  | IShort _ _ v _ => cval_id v + 11
   | IOther id _ => id
   end.
 
@@ -486,6 +522,7 @@ Definition item_body (it : item) : list N :=
   match it with
   | IRow row tail => le_bytes 4 row ++ tail
   | ICell col style fl v tail => cell_head col style fl ++ cval_bytes v ++ tail
+  | IShort style fl v tail => short_head style fl ++ cval_bytes v ++ tail
   | IOther _ body => body
   end.
 
@@ -575,24 +612,46 @@ Definition cval_data (style : N) (v : cval) : option dref :=
   | VIsst i => match nthN (e_strings en) i with Some s => Some (RShared s) | None => None end
   end.
 
-(* the logical cells of an item list under the current row, in stream order *)
-Fixpoint denote (row : N) (items : list (frm * item)) : list cellr :=
+(* the logical cells of an item list in stream order, under the current row and the column of
+   the previous cell record of that row ([prev] = None: no cell record since the row header).  A
+   short record stands in the column right after the previous cell record — a blank one counts —
+   whatever other records lie between them; without a previous cell in its row the format gives
+   it no position (wf_layout excludes that) and it denotes nothing. *)
+Fixpoint denote (row : N) (prev : option N) (items : list (frm * item)) : list cellr :=
   match items with
   | [] => []
-  | (_, IRow r _) :: t => denote r t
+  | (_, IRow r _) :: t => denote r None t
   | (_, ICell col style _ v _) :: t =>
       match cval_data style v with
-      | Some d => ((row, col), d) :: denote row t
-      | None => denote row t
+      | Some d => ((row, col), d) :: denote row (Some col) t
+      | None => denote row (Some col) t
       end
-  | (_, IOther _ _) :: t => denote row t
+  | (_, IShort style _ v _) :: t =>
+      match prev with
+      | Some p =>
+          match cval_data style v with
+          | Some d => ((row, p + 1), d) :: denote row (Some (p + 1)) t
+          | None => denote row (Some (p + 1)) t
+          end
+      | None => denote row None t
+      end
+  | (_, IOther _ _) :: t => denote row prev t
   end.
 
-Definition logical (c : layout) : list cellr := denote 0 (l_items c).
+Definition logical (c : layout) : list cellr := denote 0 None (l_items c).
 
 (* ---- which layouts are legal ---- *)
-(* ids next_cell interprets (BrtCellBlank, 0x01, is not among them: it is skipped) *)
-Definition interpreted (t : N) : bool := (t =? 0) || ((2 <=? t) && (t <=? 11)) || (t =? 146).
+(* model side: the ids next_cell acts on — BrtRowHdr, BrtCellBlank .. BrtFmlaError, the short
+   records BrtShortBlank .. BrtShortIsst, BrtEndSheetData.  Every other id reaches the
+   catch-all arm (ignorable_transparent). *)
+Definition interpreted (t : N) : bool := (t <=? 18) || (t =? 146).
+
+(* format side: the record ids to which the CELLTABLE grammar of MS-XLSB gives a meaning of its
+   own: BrtRowHdr 0, the cell records 1..11, the short cell records 12..18, BrtCellRString 62 (a
+   cell with a rich inline string; no writer is known to use it and next_cell does not read it:
+   it is neither a cell nor an ignorable record of this specification), BrtEndSheetData 146.
+   Only the other ids may be written as IOther. *)
+Definition cell_table_id (t : N) : bool := (t <=? 18) || (t =? 62) || (t =? 146).
 
 Definition wf_cval (v : cval) : bool :=
   match v with
@@ -608,7 +667,23 @@ Definition wf_item (x : frm * item) : bool :=
   match snd x with
   | IRow row _ => row <? 1048576
   | ICell col style fl v _ => (col <? 16384) && (style <? 16777216) && (fl <? 256) && wf_cval v
-  | IOther id _ => negb (interpreted id)
+  | IShort style fl v _ => (style <? 16777216) && (fl <? 256) && wf_cval v && shortable v
+  | IOther id _ => negb (cell_table_id id)
+  end.
+
+(* a short record follows a cell record of its row (records outside the cell grammar may lie
+   between) and its column, the previous one + 1, is still inside the sheet *)
+Fixpoint shorts_placed (prev : option N) (items : list (frm * item)) : bool :=
+  match items with
+  | [] => true
+  | (_, IRow _ _) :: t => shorts_placed None t
+  | (_, ICell col _ _ _ _) :: t => shorts_placed (Some col) t
+  | (_, IShort _ _ _ _) :: t =>
+      match prev with
+      | Some p => (p + 1 <? 16384) && shorts_placed (Some (p + 1)) t
+      | None => false
+      end
+  | (_, IOther _ _) :: t => shorts_placed prev t
   end.
 
 (* the cell table starts with a row header (MS-XLSB: CELLTABLE = BrtBeginSheetData
@@ -619,6 +694,7 @@ Fixpoint starts_with_row (items : list (frm * item)) : bool :=
   | (_, IRow _ _) :: _ => true
   | (_, IOther _ _) :: t => starts_with_row t
   | (_, ICell _ _ _ _ _) :: _ => false
+  | (_, IShort _ _ _ _) :: _ => false
   end.
 
 (* not a BrtWsDim at the top level (inside a block anything goes: it is discarded) *)
@@ -655,6 +731,7 @@ Definition wf_layout (c : layout) : bool :=
   forallb wf_hrec (l_pre2 c) &&
   wf_frame (fst (l_begin c)) 145 (snd (l_begin c)) &&
   forallb wf_item (l_items c) && starts_with_row (l_items c) &&
+  shorts_placed None (l_items c) &&
   wf_frame (fst (l_end c)) 146 (snd (l_end c)).
 
 Fixpoint sorted_by_rowb (cs : list cellr) : bool :=
